@@ -122,6 +122,13 @@ def ledger_obligations(repo, tier, seed):
             # ---- per-month caps
             k = K
             ctx = facts + [k >= 0, k < N] + bounds(k)
+            # a necessary condition of the cumulative meat clause that DOES hold on the current tree (the cumulative form
+            # is known finding F1 in the storage regime): what is eaten in a month, grossed up for retail waste, is within
+            # what has been slaughtered so far and within the horizon's total - so that a further loosening of the meat
+            # constraints is still reported while F1 is open
+            out.append(prove(f"{P}/meat[{reg}]/monthly_use_incl_retail_waste_within_slaughtered_so_far",
+                             ctx + [at(T["add_meat_to_model"], k), running(k) >= 0],
+                             use_meat(k) <= (running(k) if store else sl(k))))
             out.append(prove(f"{P}/scp[{reg}]/monthly_use_within_monthly_output", ctx + [at(T["add_methane_scp_to_model"], k)],
                              use_scp(k) <= series_fn("methane_scp_production")(k)))
             out.append(prove(f"{P}/cellulosic_sugar[{reg}]/monthly_use_within_monthly_output",
